@@ -19,19 +19,25 @@ type tagMacroNode struct {
 
 func (node *tagMacroNode) Execute(ctx *ExecutionContext, writer TemplateWriter) *Error {
 	ctx.Private[node.name] = func(args ...*Value) (*Value, error) {
-		ctx.macroDepth++
-		defer func() {
-			ctx.macroDepth--
-		}()
-
-		if ctx.macroDepth > maxMacroDepth {
-			return nil, ctx.Error(fmt.Sprintf("maximum recursive macro call depth reached (max is %v)", maxMacroDepth), node.position)
-		}
-
-		return node.call(ctx, args...)
+		return node.guardedCall(ctx, args...)
 	}
 
 	return nil
+}
+
+// guardedCall calls the macro while enforcing the maximum recursion depth. It
+// is used for locally defined macros as well as for imported ones.
+func (node *tagMacroNode) guardedCall(ctx *ExecutionContext, args ...*Value) (*Value, error) {
+	ctx.macroDepth++
+	defer func() {
+		ctx.macroDepth--
+	}()
+
+	if ctx.macroDepth > maxMacroDepth {
+		return nil, ctx.Error(fmt.Sprintf("maximum recursive macro call depth reached (max is %v)", maxMacroDepth), node.position)
+	}
+
+	return node.call(ctx, args...)
 }
 
 func (node *tagMacroNode) call(ctx *ExecutionContext, args ...*Value) (*Value, error) {
